@@ -8,6 +8,13 @@ let res_z (r : z res) : string =
 
 let both a b = if a = b then a else a ^ "|" ^ b
 
+let res_map (f : 'a -> string) (r : 'a res) : string =
+  match r with Ok v -> f v | Panic -> "PANIC" | OutOfFuel -> "OUTOFFUEL"
+let sbool b = if b then "1" else "0"
+let sslice (lo, hi) =
+  let lo = int_of_z lo and hi = int_of_z hi in
+  if lo = hi then "e" else Printf.sprintf "%d:%d" lo hi
+
 let impl (fn : string) (a : string array) : string option =
   let s i = bytes_of_hex a.(i) in
   let n i = z_of_int (int_of_string a.(i)) in
@@ -16,6 +23,19 @@ let impl (fn : string) (a : string array) : string option =
   | "EqualFold" ->
     let f r = match r with Ok v -> if int_of_z v = 0 then "1" else "0" | Panic -> "PANIC" | OutOfFuel -> "OUTOFFUEL" in
     Some (both (f (i_compare_str (s 0) (s 1))) (f (i_compare_byt (s 0) (s 1))))
+  | "HasPrefix" ->
+    let f r = res_map (fun (m, _) -> sbool m) r in
+    Some (both (f (i_has_prefix_unicode_str (s 0) (s 1))) (f (i_has_prefix_unicode_byt (s 0) (s 1))))
+  | "TrimPrefix" ->
+    Some (both (res_map sslice (i_trim_prefix_str (s 0) (s 1))) (res_map sslice (i_trim_prefix_byt (s 0) (s 1))))
+  | "CutPrefix" ->
+    let f r = res_map (fun (sl, fl) -> sslice sl ^ ":" ^ sbool fl) r in
+    Some (both (f (i_cut_prefix_str (s 0) (s 1))) (f (i_cut_prefix_byt (s 0) (s 1))))
+  (* unexported strategies (hooks under verif_internals): "str-result|byt-result" *)
+  | "i.hasPrefixUnicode" ->
+    let f r = res_map (fun (m, e) -> sbool m ^ ":" ^ sbool e) r in
+    Some (f (i_has_prefix_unicode_str (s 0) (s 1)) ^ "|" ^ f (i_has_prefix_unicode_byt (s 0) (s 1)))
+  | "i.containsKelvin" -> Some (let r = sbool (i_contains_kelvin (s 0)) in r ^ "|" ^ r)
   | "k.index_byte" -> Some (string_of_int (int_of_z (i_index_byte_generic (s 0) (n 1))))
   | "k.count" ->
     Some (both (string_of_int (int_of_z (i_count_generic (s 0) (n 1))))
